@@ -118,28 +118,30 @@ func (fgen *funcGen) createLocals(oldParams []ast.Param, oldBlocks []ast.BasicBl
 // pre-condition: fgen.newLocals has been invoked.
 func (fgen *funcGen) explicitZeroIDs(oldParams []ast.Param, oldBlocks []ast.BasicBlock) []local {
 	var zero []local
-	isZero := func(ident ir.LocalIdent) bool {
-		return ident == ir.LocalIdent{}
+	// Note, the empty name (%"") denotes an unnamed local variable, as if no
+	// name was written; it is numbered like any other unnamed local variable.
+	isZero := func(text string, ident ir.LocalIdent) bool {
+		return ident == ir.LocalIdent{} && !strings.Contains(text, `"`)
 	}
 	f := fgen.f
 	for i, oldParam := range oldParams {
-		if n, ok := oldParam.Name(); ok && isZero(localIdent(n)) {
+		if n, ok := oldParam.Name(); ok && isZero(n.Text(), localIdent(n)) {
 			zero = append(zero, f.Params[i])
 		}
 	}
 	for i, oldBlock := range oldBlocks {
 		block := f.Blocks[i]
-		if n, ok := oldBlock.Name(); ok && isZero(labelIdent(n)) {
+		if n, ok := oldBlock.Name(); ok && isZero(n.Text(), labelIdent(n)) {
 			zero = append(zero, block)
 		}
 		for j, oldInst := range oldBlock.Insts() {
-			if old, ok := oldInst.(*ast.LocalDefInst); ok && isZero(localIdent(old.Name())) {
+			if old, ok := oldInst.(*ast.LocalDefInst); ok && isZero(old.Name().Text(), localIdent(old.Name())) {
 				if v, ok := block.Insts[j].(local); ok {
 					zero = append(zero, v)
 				}
 			}
 		}
-		if old, ok := oldBlock.Term().(*ast.LocalDefTerm); ok && isZero(localIdent(old.Name())) {
+		if old, ok := oldBlock.Term().(*ast.LocalDefTerm); ok && isZero(old.Name().Text(), localIdent(old.Name())) {
 			if v, ok := block.Term.(local); ok {
 				zero = append(zero, v)
 			}
